@@ -17,17 +17,19 @@ PLAN = dict(
     tiers=dict(
         quick=[det("rel", H, "cs-rel", 16, 300, 5, tso=True, time_cap=40),
                det("dbg", H, "cs-dbg", 16, 120, 5, tso=True, time_cap=30),
+               cmd("sequential-model", "harness/c1012_seqmodel_rc.cpp", "plain", 2, ["C10", "12000"], link_tbb=True, ldflags=["-lrapidcheck"], replay_tag="seqmodel-"),
                tsan("C10", 8, 240)],
         thorough=[det("rel", H, "cs-rel", 16, 1800, 6, tso=True, time_cap=280),
                   det("dbg", H, "cs-dbg", 16, 600, 6, tso=True, time_cap=160),
                   det("enum-conflict", H, "cs-rel", 16, 60, 2, tso=True, time_cap=90, enum="conflict", enum_cap=150),
                   det("enum-firstpc", H, "cs-rel", 16, 60, 2, tso=True, time_cap=90, enum="firstpc", enum_cap=150),
+                  cmd("sequential-model", "harness/c1012_seqmodel_rc.cpp", "plain", 8, ["C10", "400000"], link_tbb=True, ldflags=["-lrapidcheck"], replay_tag="seqmodel-"),
                tsan("C10", 16, 600)],
     ),
 )
 TEXT = dict(
     technique="property-based testing: generated map programs x generated schedules over the real concurrent_hash_map (controlled scheduler, SC+TSO) against a key-wise "
-              "linearizability checker (per-key register with element versions), accessor holder bookkeeping stored in the mapped value, an instrumented value type and quiescent audits",
+              "linearizability checker (per-key register with element versions), accessor holder bookkeeping stored in the mapped value, an instrumented value type and quiescent audits; plus rapidcheck model-based testing of long single-threaded operation sequences (structured key sets over an identity hash, fills across the growth thresholds, rehash, clear, copy, assignment, swap) against std::map",
     level_text="Exploration: thousands of small generated programs on one table that is pre-filled to just below a growth threshold, so that segment allocation, mask publication, "
                "recursive lazy bucket rehashing and the mask-race re-checks happen while 2-4 threads insert/find/erase a handful of colliding keys under a generated interleaving of "
                "every atomic operation. Every call is logged with invocation/response stamps and checked key by key against a sequential map by a Wing-Gong search (exactly one winner "
